@@ -13,17 +13,19 @@ EXPLANATION = ("Histories of setter / call / read operations are executed on rea
                "df = sampling/NFFT and that frequencies() has the length of psd. Besides the exhaustive short "
                "histories an inductive step is checked: from each abstract pre-state (never computed / clean / dirty "
                "with an ARBITRARY symbolic stale cache) one operation re-establishes the invariant, which covers "
-               "histories of any length.")
+               "histories of any length. A class sweep runs compute > change one attribute > read on ALL twelve estimator classes and "
+               "compares the PSD and the exposed model parameters (ar, ma, rho, reflection) with a fresh object.")
 BOUNDS = {
     "quick": "Periodogram and pburg, real data N=3 (new data N=3 and N=4), symbolic sampling; operation alphabet of 17 "
-             "(Periodogram) / 12 (pburg) operations; all histories of length <= 2 after construction (+ optional initial compute); inductive step for every operation from the 3 pre-states",
-    "thorough": "adds complex data and pcorrelogram (histories of length <= 2) and all histories of length 3 on real data for the three classes",
+             "(Periodogram) / 12 (pburg) operations; all histories of length <= 2 after construction (+ optional initial compute); inductive step for every operation from the 3 pre-states; "
+             "class sweep: 12 classes x {data, sampling, NFFT, scale_by_freq, sides} changed after a first estimate, real data at the classes' smallest sizes (N=3..5, NFFT 4->5)",
+    "thorough": "adds complex data and pcorrelogram (histories of length <= 2) and all histories of length 3 on real data for the three classes; class sweep on complex data too (parma / pma real only)",
 }
 ASSUMPTIONS = ["floats modelled as exact reals", "fft = DFT definition with exact twiddles",
                "a re-assigned sampling value fs' differs from fs (the 'unchanged value' operations cover equality)",
                "the fresh object is built from the attribute values read back from the object under test; its sides "
                "attribute is then set to the object's sides through the same setter"]
-OUTSIDE = ["N > 4", "attributes of other estimator classes (their setters are the shared Spectrum setters exercised here)",
+OUTSIDE = ["N > 5", "class-specific attributes of the other nine classes beyond the five of the class sweep (lag, order, NSIG, tapers: the shared Spectrum setters are exercised on Periodogram / pburg / pcorrelogram)",
            "random long histories (subsumed by the inductive step where it holds)"]
 BUDGET = {"quick": 1200, "thorough": 3400}
 
@@ -197,9 +199,75 @@ def case_inductive(h, cls, cplx, pre, op):
     final_claims(h, p, cls, tag="read:")
 
 
+SWEEP_OPS = ('data<-new', 'sampling<-new', 'NFFT<-5', 'scale<-toggle', 'sides<-twosided')
+
+
+def case_sweep(h, cls, cplx, op):
+    """every estimator class: compute, change one attribute, read: the PSD and the exposed model parameters are those
+    of a fresh object with the final attribute values (nothing survives from the first estimate)"""
+    from . import zoo
+    N = zoo.DEFAULT_N[cls]
+    ns = zoo.NSYM.get(cls)
+    x = zoo.data(h, cls, cplx)
+    y = h.vec('y', N, cplx) if ns is None else h.mixed_vec('y', N, cplx, 1, offset=1)
+    fs = h.real('fs', positive=True)
+    fs2 = h.real('fs2', positive=True)
+    h.assume(fs != fs2, "fs2 != fs")
+    p = zoo.make(cls, x, n=4, fs=fs)
+    try:
+        _ = p.psd
+        if op == 'data<-new':
+            p.data = y
+        elif op == 'sampling<-new':
+            p.sampling = fs2
+        elif op == 'NFFT<-5':
+            p.NFFT = 5
+        elif op == 'scale<-toggle':
+            p.scale_by_freq = not p.scale_by_freq
+        elif op == 'sides<-twosided':
+            p.sides = 'twosided'
+        want_sides = p.sides
+        got = p.psd
+        f = zoo.make(cls, p.data, n=p.NFFT, fs=p.sampling, scale=p.scale_by_freq)
+        if f.sides != want_sides:
+            _ = f.psd
+            f.sides = want_sides
+        expect = f.psd
+    except ValueError:
+        return          # degenerate data rejected by the estimator
+    h.claim_eq("df=sampling/NFFT", p.df * p.NFFT, p.sampling)
+    if len(got) != len(expect):
+        h.fail("len(psd)", "len(psd)=%d, fresh object gives %d" % (len(got), len(expect)))
+        return
+    if len(p.frequencies()) != len(got):
+        h.fail("len(frequencies)", "len(frequencies())=%d len(psd)=%d" % (len(p.frequencies()), len(got)))
+    for k in range(len(got)):
+        h.claim_eq("psd[%d]=fresh" % k, got[k], expect[k])
+    for attr in ('ar', 'ma', 'rho', 'reflection'):
+        a, b = getattr(p, attr, None), getattr(f, attr, None)
+        if a is None or b is None:
+            continue
+        if np.ndim(a) == 0:
+            h.claim_eq("%s=fresh" % attr, a, b)
+        elif len(a) == len(b):
+            for i in range(len(a)):
+                h.claim_eq("%s[%d]=fresh" % (attr, i), a[i], b[i])
+        else:
+            h.fail("%s:len" % attr, "%d vs fresh %d" % (len(a), len(b)))
+
+
 def cases(tier, seed):
     q = tier == 'quick'
     out = []
+    from . import zoo
+    for cls in zoo.ALL:
+        for cplx in ((False,) if q else (False, True)):
+            for op in SWEEP_OPS:
+                if cplx and (op == 'sides<-twosided' or cls in zoo.NSYM):
+                    continue
+                out.append(Case("class-sweep:%s:%s:compute>%s>read" % (cls, 'cx' if cplx else 're', op), case_sweep,
+                                dict(cls=cls, cplx=cplx, op=op), timeout=60 if q else 300, max_paths=8, feas_timeout=3,
+                                wall=300 if q else 900, max_decisions=24))
     combos = [('Periodogram', False), ('pburg', False)]
     if not q:
         combos += [('Periodogram', True), ('pburg', True), ('pcorrelogram', False), ('pcorrelogram', True)]
